@@ -199,6 +199,12 @@ theorem inv_apply (c : Ctl) (e : Ev) (ch : Chain) (now : Int) (hi : Inv c) : Inv
   | termsUpdated => exact inv_termsUpdated _ ch hs
   | restart => exact inv_boot ch now
   | tick => exact hs
+  | purchasedNoRpc =>
+    show Inv (onPurchasedNoRpc (settle c now))
+    unfold onPurchasedNoRpc; split <;> exact hs
+  | closedNoRpc => intro h; simp [onClosedNoRpc] at h
+  | destUpdatedNoRpc => exact hs
+  | termsUpdatedNoRpc => exact hs
 
 /-- **for every history** of purchase, close, destination-update and terms-update events, restarts and the
 passing of time, whatever the chain answers at each of them, and from every chain state the node is first
@@ -216,6 +222,15 @@ theorem history_allocates_only_live (ch0 : Chain) (t0 : Int) (h : List (Ev × Ch
     let c := runHist (boot ch0 t0) h
     c.terms.purchased = true ∧ now < c.terms.startedAt + c.terms.len ∧ c.terms.dest.isSome :=
   allocates_only_live _ now (history_inv ch0 t0 h) ha
+
+/-- **a node that refuses calls never starts, redirects or re-terms a fulfilment**: an event handled while the chain
+cannot be read leaves the terms and the destination as they are, starts nothing, and only a close stops anything -/
+theorem rpc_failure_is_harmless (c : Ctl) :
+    (onPurchasedNoRpc c).terms = c.terms ∧ (onPurchasedNoRpc c).run = c.run ∧
+    (onDestUpdatedNoRpc c).terms = c.terms ∧ (onDestUpdatedNoRpc c).run = c.run ∧
+    (onTermsUpdatedNoRpc c).terms = c.terms ∧ (onTermsUpdatedNoRpc c).run = c.run ∧
+    (onClosedNoRpc c).terms = c.terms ∧ (onClosedNoRpc c).run = none := by
+  refine ⟨?_, ?_, rfl, rfl, rfl, rfl, rfl, rfl⟩ <;> (unfold onPurchasedNoRpc; split <;> rfl)
 
 /-- the terms of a fulfilment do not change while it continues: neither a purchase event nor a terms update
 nor the passing of time touches the terms of a watcher that keeps running -/
